@@ -102,3 +102,17 @@ Theorem C12_tangent_halfspace_contains_circular_cone : forall n a x t,
   (sqrt (dot3 x x) * cos t <= dot3 x a)%R -> (0 <= dot3 n x)%R.
 Proof. exact halfspace_contains_circular_cone. Qed.
 Print Assumptions C12_tangent_halfspace_contains_circular_cone.
+
+(* the regenerated cone constructors: the order uses exactly the matrix it was given (ConeTheta2D: the rows of get_2d_w), its
+   dimension is the number of columns, and it carries one alpha per facet *)
+From VOPy Require ExtraRefine.
+From VOPyGen Require Gen_extra Gen_extra2.
+Theorem C12_cone_keeps_the_matrix_it_was_given : forall (W : mat) (alpha_of : nat -> Q),
+  fst (fst (Gen_extra2.gen_cone_ctor W alpha_of)) = W /\
+  snd (fst (Gen_extra2.gen_cone_ctor W alpha_of)) = length (hd [] W) /\
+  length (snd (Gen_extra2.gen_cone_ctor W alpha_of)) = length W.
+Proof.
+  intros W alpha_of. unfold Gen_extra2.gen_cone_ctor. cbn [fst snd]. split; [reflexivity|]. split; [reflexivity|].
+  exact (proj1 (ExtraRefine.gen_alpha_vec_spec alpha_of (length W))).
+Qed.
+Print Assumptions C12_cone_keeps_the_matrix_it_was_given.
